@@ -243,3 +243,15 @@ def machinery_guard(fn):
         traceback.print_exc()
         print('MACHINERY-FAILURE: unexpected exception')
         sys.exit(2)
+
+
+def split_error_rows(v, prefix, path):
+    """Error rows written by a table driver (harness/guard.py) are reported as '<property>.exception' and taken out of the
+    table before TLC reads it."""
+    rows = json.load(open(path))
+    errs = [r for r in rows if isinstance(r, dict) and r.get('t') == 'error' and 'exc' in r]
+    if errs:
+        json.dump([r for r in rows if r not in errs], open(path, 'w'))
+        for r in errs[:50]:
+            v.fail(prefix + '.exception', {'input': r.get('input'), 'raised': r['exc'], 'where': r.get('where')}, replay={'row': r})
+    return len(errs)
